@@ -27,11 +27,11 @@ func vfGccNewDriver(sc *vfGccScript, lg *vfGccLog) (*vfGccDriver, error) {
 	}
 	switch sc.Pacer {
 	case "rec":
-		opts = append(opts, gcc.SendSideBWEPacer(&vfGccRecPacer{log: lg, inner: &vfGccDirect{}}))
+		opts = append(opts, gcc.SendSideBWEPacer(&vfGccRecPacer{log: lg, inner: &vfGccDirect{}, closeErr: sc.PCloseErr}))
 	case "noop":
-		opts = append(opts, gcc.SendSideBWEPacer(&vfGccRecPacer{log: lg, inner: gcc.NewNoOpPacer()}))
+		opts = append(opts, gcc.SendSideBWEPacer(&vfGccRecPacer{log: lg, inner: gcc.NewNoOpPacer(), closeErr: sc.PCloseErr}))
 	case "leaky":
-		opts = append(opts, gcc.SendSideBWEPacer(&vfGccRecPacer{log: lg, inner: gcc.NewLeakyBucketPacer(sc.Init)}))
+		opts = append(opts, gcc.SendSideBWEPacer(&vfGccRecPacer{log: lg, inner: gcc.NewLeakyBucketPacer(sc.Init), closeErr: sc.PCloseErr}))
 	case "default":
 	default:
 		return nil, fmt.Errorf("unknown pacer %q", sc.Pacer)
